@@ -477,7 +477,9 @@ func init() {
 		return coinsVal(sp, c.resType(0))
 	})
 	reg(B+"LockedCoins", func(c *LibCtx, a []*Val) *Val {
-		lk := Const(freshName("locked"), sortStrArrInt)
+		// what x/bank reports as locked is a function of the account and the block time (the vesting schedule of x/auth): an
+		// uninterpreted function of the account view, so that a contract can name "the locked coins at entry" (bankLocked(a))
+		lk := bankLockedTerm(c.st, a[2].T)
 		d := Bound("d", SStr)
 		balA := Select(ghostT(c.st, "bal"), a[2].T)
 		c.st.Assume(Forall([]*Term{d}, And(Ge(Select(lk, d), Num(0)), Le(Select(lk, d), Select(balA, d))), []*Term{Select(lk, d)}))
@@ -497,6 +499,19 @@ func init() {
 		libGhostWrites[B+n] = []string{"bal", "accTag", "accSeq", "accPub"}
 	}
 	libGhostWrites["(*"+pSdk+"EventManager).EmitTypedEvent"] = []string{"evCount", "evTag", "evRef"}
+}
+
+func bankLockedTerm(st *State, addr *Term) *Term {
+	var args []*Term
+	var sorts []string
+	for _, g := range []string{"accTag", "accOV", "accDV", "accStart", "accEnd", "blockTime"} {
+		t := ghostT(st, g)
+		args = append(args, t)
+		sorts = append(sorts, t.Sort)
+	}
+	args = append(args, addr)
+	sorts = append(sorts, SStr)
+	return UF("bankLocked", sorts, sortStrArrInt, args...)
 }
 
 var bytesNil = Const("bytes:nil", SStr)
